@@ -182,15 +182,15 @@ type emitFn func(fam, text string, startAbs, endAbs bool) bool
 // forEachSQL enumerates every text of every family; stops when emit returns false.
 func forEachSQL(thorough bool, bounds map[string]interface{}, emit emitFn) {
 	selOps := []string{"+", "-", "*", "/"}
-	selAtoms := []string{"f", "g", "2", "0.5"}
-	selUnary := []string{"sum", "max", ""} // "" = parenthesis
+	selAtoms := []string{"f", "g", "16777217", "0.123456789012"} // numbers that do not survive float32 / 2-decimal formatting
+	selUnary := []string{"sum", "max", ""}                       // "" = parenthesis
 
 	// ---- F1 select-expr: every select expression, alone / aliased+ordered / as having operand ----
 	W, D := 5, 3
 	if thorough {
 		W, D = 6, 4
 	}
-	bounds["select_expr"] = fmt.Sprintf("E := f|g|2|0.5 | sum(E)|max(E)|(E) | E(+|-|*|/)E, <=%d nodes, nesting<=%d", W, D)
+	bounds["select_expr"] = fmt.Sprintf("E := f|g|16777217|0.123456789012 | sum(E)|max(E)|(E) | E(+|-|*|/)E, <=%d nodes, nesting<=%d", W, D)
 	byW := genExpr(selAtoms, selUnary, selOps, W, D)
 	all := flat(byW, W)
 	for _, e := range all {
@@ -324,7 +324,7 @@ func forEachSQL(thorough bool, bounds map[string]interface{}, emit emitFn) {
 	// ---- F4 having: boolean skeleton x comparison atoms ----
 	hl := []string{"f", "sum(g)", "f*2", "(f+g)"}
 	hops := []string{">", "<=", "="}
-	hr := []string{"1", "0.5", "g"}
+	hr := []string{"16777217", "0.001", "g"}
 	if thorough {
 		hops = []string{">", ">=", "<", "<=", "=", "!=", "<>", "like", "=~"}
 	}
@@ -336,7 +336,7 @@ func forEachSQL(thorough bool, bounds map[string]interface{}, emit emitFn) {
 			}
 		}
 	}
-	bounds["having"] = fmt.Sprintf("H := cmp | (H) | H and H | H or H, <=3 comparisons, nesting<=%d; cmp := {f,sum(g),f*2,(f+g)} x %d operators x {1,0.5,g} (3 comparisons: reduced atom set)", condD, len(hops))
+	bounds["having"] = fmt.Sprintf("H := cmp | (H) | H and H | H or H, <=3 comparisons, nesting<=%d; cmp := {f,sum(g),f*2,(f+g)} x %d operators x {16777217,0.001,g} (3 comparisons: reduced atom set)", condD, len(hops))
 	few := []string{"f > 1", "sum(g)*2 <= 0.5", "(f+g) = g", "max(sum(f)) < 2/g"}
 	for n := 1; n <= 3; n++ {
 		leafSets := make([][]string, n)
